@@ -101,6 +101,10 @@ def make_on_path(E, obl):
         except Inconclusive as e:
             out['unknown'].append('props: ' + str(e)[:300])
             return out
+        except Exception as e:
+            import traceback
+            out['unknown'].append('props raised %r: %s' % (e, traceback.format_exc()[-700:]))
+            return out
         s = res.ctx.solver
         for label, Pf in props:
             if Pf is True:
@@ -116,7 +120,8 @@ def make_on_path(E, obl):
             out['checked'] += 1
             if r == z3.unsat:
                 continue
-            if r == z3.unknown:
+            if r == z3.unknown or label.startswith('oracle-precondition'):
+                # an undecidable query, or a side condition the oracle itself needs: never a verdict
                 out['unknown'].append(label)
                 continue
             m = s.model()
